@@ -826,6 +826,11 @@ def _deserialize_graph(
             )
             if initializer_name in value_info:
                 deserialize_value_info_proto(value_info[initializer_name], initializer_value)
+                if not value_info[initializer_name].HasField("type"):
+                    # An (invalid) entry without any type says nothing about the value:
+                    # keep the type and shape of the tensor, as for an initializer without value info
+                    initializer_value.type = _core.TensorType(tensor.dtype)
+                    initializer_value.shape = tensor.shape  # type: ignore[assignment]
             if initializer_value.name in quantization_annotations:
                 _deserialize_quantization_annotation(
                     quantization_annotations[initializer_value.name], initializer_value
